@@ -32,6 +32,11 @@ CHECKS = {
          "Held on every generated request: ~26000 (quick) structure-aware requests in 15 families enumerated over small structural spaces (complete products such as null-step x statement kind, statement-kind pairs, operator x key x value kind, aggregation kind x field x parameter x input), through Compile+Run on a populated and an empty graph and through a live server's gRPC handlers, every RPC found by reflection included. A clean run shows no crash on these requests, not crash freedom in general.",
          "Trusted: crash attribution by BEGIN/END progress file (a crash after END, e.g. in a detached job goroutine, would be blamed on the next case and fail the confirmation replay: reported inconclusive, not held). Requests protojson cannot parse are skipped.",
          "5/C06"),
+ "C09": ("exploration",
+         "runtime reference-model monitor: operation sequences on kvindex.KVIndex over Badger executed in worker processes; after every step every public query is compared with a brute-force scan over the model's live documents",
+         "Held on every explored sequence: all sequences of depth 2 (quick) / 3 (thorough) over 39 operations from three base states plus 500 / 20000 random sequences of length 8-20, all queries on all fields after every step, plus 90- and 250-term range cases. Field registration after documents exist is a known finding and is excluded from generation.",
+         "Trusted: the 60-line scan model in c09.go. Range bounds are kept strictly between term values; KVTermCount cannot distinguish the string \"\" from the number 0, the comparison treats them as one key.",
+         "5/C09"),
 }
 
 NOT_YET = "check not built yet in this session (design in DESIGN.md section 5); claimed once the monitor exists and is silent on the unchanged tree"
